@@ -54,7 +54,8 @@ package sourcewrap
 //@   props C20
 //@   safety C16
 //@   requires t != nil && typ != nil && t.src != nil
-//@   modifies rec_translateType, rec_watch, sourcewrap.wrappedWatchArgs.WatchArgs, sourcewrap.wrappedWatchArgs.tfm
+//@   modifies rec_translateType, rec_watch, sourcewrap.wrappedWatchArgs.WatchArgs, sourcewrap.wrappedWatchArgs.tfm,
+//@            sourcewrap.Blank.t@pay(t.src), sourcewrap.Blank.wa@pay(t.src), sourcewrap.Blank.watchCtx@pay(t.src)
 //@   ensures C20_translate_error_propagates: rec_translateType_res1[old(rec_translateType_cnt)] != nil ==> err != nil && rec_watch_cnt == old(rec_watch_cnt)
 //@   ensures C20_inner_watch_gets_translated_type_and_wrapped_args: rec_translateType_res1[old(rec_translateType_cnt)] == nil ==>
 //@        rec_watch_cnt == old(rec_watch_cnt) + 1 && rec_watch_arg0[old(rec_watch_cnt)] == t.src
